@@ -303,6 +303,7 @@ func C03(p *an.Prog, r *an.Report) {
 	}
 	r.Analysed["cursor_taking_calls_in_parser_closure"] = ncalls
 	r.Ob("C03.S2", "scan", "-", an.Discharged, fmt.Sprintf("scanned %d calls to error-returning cursor-taking library functions in %d functions of the parser closure", ncalls, len(fns)))
+	c02SigTypeSource(p, r, "C03.S3")
 	ns := mappingSiteRule(p, r, "C03.S2")
 	r.Floor("embedded_mapping_sites", ns, 4)
 }
